@@ -29,5 +29,7 @@ LnUpper(n) ==      \* dyadic (denominator 4096) so that comparisons with the obs
     [] n = 9 -> <<9000, 4096>> [] n = 10 -> <<9432, 4096>> [] n = 12 -> <<10179, 4096>> [] n = 16 -> <<11357, 4096>>
     [] OTHER -> <<3, 1>>                        \* ln n < 3 for n <= 20
 
-Within(x, lo, hi, tol) == IsFin(x) /\ RLe(RSub(lo, tol), x) /\ RLe(x, RAdd(hi, tol))
+\* (the observations are normalised quantities of order 1: one that is beyond +-1024 fails outright -- and is kept away from
+\* TLC's 32-bit arithmetic, where it would overflow and turn a wrong result of the code into an evaluation error)
+Within(x, lo, hi, tol) == IsFin(x) /\ (x[1] \div x[2]) \in -1024..1024 /\ RLe(RSub(lo, tol), x) /\ RLe(x, RAdd(hi, tol))
 =============================================================================
